@@ -58,8 +58,21 @@ func (s *State) setComp(name string, t *Term) {
 	s.heap[name] = t
 }
 
-func hCompName(t types.Type, leaf int) string { return fmt.Sprintf("H|%s|%d", typeKey(t), leaf) }
-func eCompName(t types.Type, leaf int) string { return fmt.Sprintf("E|%s|%d", typeKey(t), leaf) }
+func hCompName(t types.Type, leaf int) string {
+	n := fmt.Sprintf("H|%s|%d", typeKey(t), leaf)
+	if lp := leafPtr(t); leaf < len(lp) && lp[leaf] {
+		compPtr[n] = true
+	}
+	return n
+}
+
+func eCompName(t types.Type, leaf int) string {
+	n := fmt.Sprintf("E|%s|%d", typeKey(t), leaf)
+	if lp := leafPtr(t); leaf < len(lp) && lp[leaf] {
+		compPtr[n] = true
+	}
+	return n
+}
 func bCompName(t types.Type, leaf int) string {
 	return fmt.Sprintf("B|%s|%d", types.TypeString(t, nil), leaf)
 }
@@ -209,6 +222,7 @@ type Frame struct {
 	loopRecs  map[*loopInfo]*loopRec
 	curBlock  *ssa.BasicBlock
 	asserted  map[*Clause]bool
+	entryNext *Term // allocation counter when the function was entered
 	unrolling map[*ssa.BasicBlock]*[]incoming
 }
 
